@@ -410,7 +410,12 @@ HttpResponse Http::request(HttpRequest& request)
 		return response;
 	}
 	
-	if (request.body().length() != 0) {
+	// a request whose last transfer coding is "chunked" is framed by its chunks: no Content-Length next to them
+	Array<String> codings = request.header("Transfer-Encoding").toLowerCase().split(',');
+	bool chunked = codings.length() > 0 && codings.last().trimmed() == "chunked";
+	if (chunked)
+		request.setHeader("Content-Length", String());
+	else if (request.body().length() != 0) {
 		request.setHeader("Content-Length", request.body().length());
 	}
 
@@ -426,6 +431,8 @@ HttpResponse Http::request(HttpRequest& request)
 		response.setSockError(socket.errorMsg());
 		return response;
 	}
+	if (chunked)
+		socket << "0\r\n\r\n"; // the body is complete: last chunk
 	
 	String line = socket.readLine();
 	if (!line.ok()) {
@@ -746,7 +753,11 @@ bool HttpMessage::putFile(const String& path, int begin, int end)
 		return false;
 	}
 	if (begin == 0 && end == 0 && !hasHeader("Content-Range"))
-		setHeader("Content-Length", file.size());
+	{
+		Array<String> codings = header("Transfer-Encoding").toLowerCase().split(',');
+		if (!(codings.length() > 0 && codings.last().trimmed() == "chunked")) // a chunked message carries no length
+			setHeader("Content-Length", file.size());
+	}
 	else
 	{
 		Long size = file.size();
